@@ -30,7 +30,7 @@ func (r c10Rule) String() string {
 
 func c10Alphabet() []c10Rule {
 	var out []c10Rule
-	for _, d := range []string{"", "A", "B", "E"} {
+	for _, d := range []string{"", "A", "B", "E", "R"} {
 		for _, rev := range []bool{false, true} {
 			for _, rej := range []uint16{0, 2, 3, 5} {
 				for _, f := range []string{"", "u1", "u2"} {
@@ -43,8 +43,8 @@ func c10Alphabet() []c10Rule {
 }
 
 // A also holds a regexp entry with a case-sensitive escape (\D: not a digit; lower-casing the file would turn it into \d); E is a
-// domain set without entries (a file of comments): it matches nothing.
-var c10Sets = map[string][]string{"A": {"a.test", "shared.test", `regexp:^re\D\.zone$`}, "B": {"b.test", "shared.test"}, "E": {}}
+// domain set without entries (a file of comments): it matches nothing; R holds only the root domain: it matches every name.
+var c10Sets = map[string][]string{"A": {"a.test", "shared.test", `regexp:^re\D\.zone$`}, "B": {"b.test", "shared.test"}, "E": {}, "R": {"."}}
 
 // reference interpreter
 func c10Ref(rules []c10Rule, lowerName string) (rcode int, upstream string) {
@@ -56,7 +56,7 @@ func c10Ref(rules []c10Rule, lowerName string) (rcode int, upstream string) {
 					if regexp.MustCompile(re).MatchString(lowerName) {
 						in = true
 					}
-				} else if lowerName == e || strings.HasSuffix(lowerName, "."+e) {
+				} else if e == "." || lowerName == e || strings.HasSuffix(lowerName, "."+e) {
 					in = true
 				}
 			}
@@ -112,8 +112,10 @@ func c10Scenario(c *choice.Ctx, rep *report.R, alpha []c10Rule, maxLen int, sub 
 	cfg := &Config{}
 	cfg.DomainSets = []DomainSetConfig{
 		{Tag: "A", Files: []string{vTmpFile("c10_A.txt", strings.Join(c10Sets["A"], "\n")+"\n")}},
-		{Tag: "B", Files: []string{vTmpFile("c10_B1.txt", c10Sets["B"][0]+"\n"), vTmpFile("c10_B2.txt", "# second file\n"+c10Sets["B"][1]+"\n")}},
+		// (the first file of B ends without a newline and the second starts with an entry: files are loaded one by one, lines do not fuse)
+		{Tag: "B", Files: []string{vTmpFile("c10_B1nonl.txt", c10Sets["B"][0]), vTmpFile("c10_B2e.txt", c10Sets["B"][1]+"\n# second file\n")}},
 		{Tag: "E", Files: []string{vTmpFile("c10_E.txt", "# nothing in here\n\n   # really\n")}},
+		{Tag: "R", Files: []string{vTmpFile("c10_R.txt", "# everything\n.\n")}},
 	}
 	for _, r := range rules {
 		cfg.Rules = append(cfg.Rules, RuleConfig{Reverse: r.reverse, Domain: r.domain, Reject: r.reject, Forward: r.forward})
@@ -225,14 +227,14 @@ func TestVerifC10(t *testing.T) {
 	// 12-rule sub-alphabet for length-3 lists
 	var sub []int
 	for i, r := range alpha {
-		if (r.reject == 0 || r.reject == 3) && !(r.reject == 3 && r.forward == "u2") && !(r.domain == "" && r.reverse) && r.domain != "E" {
+		if (r.reject == 0 || r.reject == 3) && !(r.reject == 3 && r.forward == "u2") && !(r.domain == "" && r.reverse) && r.domain != "E" && r.domain != "R" {
 			if r.domain == "B" && r.forward == "u1" {
 				continue
 			}
 			sub = append(sub, i)
 		}
 	}
-	rep.Rule = fmt.Sprintf("E3: all rule lists of length 0..%d over the full %d-rule alphabet {domain none/A/B/E (E: a set without entries)} x reverse x reject {0,2,3,5} x forward {none,u1,u2} (length-3 lists over a %d-rule sub-alphabet), domain sets A,B share an entry, B is split over two files, A also holds a regexp entry with a case-sensitive escape, "+
+	rep.Rule = fmt.Sprintf("E3: all rule lists of length 0..%d over the full %d-rule alphabet {domain none/A/B/E/R (E: a set without entries, R: a set holding only the root domain)} x reverse x reject {0,2,3,5} x forward {none,u1,u2} (length-3 lists over a %d-rule sub-alphabet), domain sets A,B share an entry, B is split over two files, A also holds a regexp entry with a case-sensitive escape, "+
 		"cache off/on, no upstream / u1 / u2 failing every exchange, loaded by the real run(); 10 queries (names in A only / B only / both / neither, mixed case; A/IN and TXT/CH; two names that differ in what the regexp entry's \\D accepts) sent twice through the tcp seam and, with a cache, a third time in the last quarter of the ttl (hit + background refresh); upstreams are recording auto-responders; "+
 		"oracle vs reference interpreter: client rcode (SERVFAIL when the selected upstream fails), exactly the selected upstream is contacted exactly once (never on the second round with the cache on), forwarded question is lower-cased with same class/type and RD=1, answer is that upstream's answer",
 		maxLen, len(alpha), len(sub))
